@@ -330,7 +330,12 @@ def _is_results(ctx: Ctx, p, v, res: FuncInfo) -> bool:
     exp = None
     for pp in C.normal_paths(ex.explore(res)):
         exp = pp.value
-    if exp is None or not isinstance(v, RF):
+    if not isinstance(v, RF):
+        return False
+    ce = C.call_event_of_result(p, v)
+    if ce is not None and res in ce.d['callees']:
+        return True             # the getter is not a plain accessor: its own result is what is passed on
+    if exp is None:
         return False
     return C.same_mod_ver(v, exp)
 
@@ -346,6 +351,30 @@ def r13_4(ctx: Ctx):
         if m.func is add and m.kind == 'mutcall' and m.field == 'append':
             appended |= {o for o in m.bases if o.kind == 'list'}
     ctx.floor(rid, 'list objects AddListener appends to', len(appended), 1)
+    ctx.rule('R13.7', 'the listener list is allocated per Solver: a listener attached to one solver is not notified '
+                      'by another')
+    shared = [o for o in appended if o.is_singleton_scope or o.scope != 'func']
+    external = [o for o in ctx.pta.local(add, add.param_names[0]) if False]
+    sinit = ctx.ix.func('Solver.__init__')
+    lst_fields = set()
+    for m in roles.mutations():
+        if m.func is add and m.kind == 'mutcall' and isinstance(m.base_expr, ast.Attribute):
+            lst_fields.add(m.base_expr.attr)
+    from_params = []
+    for pth in C.normal_paths(ctx.explorer(inline_ctor=False).explore(sinit)):
+        for st in pth.stores():
+            if st.d['tkind'] == 'attr' and any(st.d['field'].endswith(f.lstrip('_')) or st.d['field'] == f
+                                                 for f in lst_fields):
+                v = st.d['value']
+                at = v.single_atom() if isinstance(v, RF) else None
+                if isinstance(at, tuple) and at and at[0] in ('var', 'default'):
+                    from_params.append(C.fmt(v))
+    ctx.check(not shared and not from_params, 'R13.7', 'Solver listener list', sinit.loc(),
+              'every Solver allocates its own listener list',
+              f'the list AddListener appends to is not allocated per Solver '
+              f'({[o.describe() for o in shared][:1] or from_params[:1]}): a listener attached to one solver is '
+              f'also notified (and started again) by every other solver sharing the list',
+              key='R13.7::shared-listener-list')
     used = set()
     for f in (roles.iter_driver, roles.solve_driver):
         for nn in ast.walk(f.node):
